@@ -13,13 +13,13 @@ PROPS = ["IsoVerif/Props/C16.lean", "IsoVerif/Props/C16PolyA.lean", "IsoVerif/Pr
          "IsoVerif/Props/C16Finder.lean", "IsoVerif/Props/C16MoveRef.lean", "IsoVerif/Props/C16FinderSpec.lean",
          "IsoVerif/Props/C16TailRecord.lean", "IsoVerif/Props/C16Concat.lean", "IsoVerif/Props/C16FinderChar.lean",
          "IsoVerif/Props/C16CutsN.lean", "IsoVerif/Props/C16TailExons.lean", "IsoVerif/Props/C16Pad.lean",
-         "IsoVerif/Props/C16NoExon.lean", "IsoVerif/Props/C16FinderMirror.lean",
+         "IsoVerif/Props/C16NoExon.lean", "IsoVerif/Props/C16FinderMirror.lean", "IsoVerif/Props/C16FinderFix.lean",
          # the CIGAR walkers regenerated from the source (Gen/Loops.lean): refinement Gen.f = Model.f + headline theorems over Gen.f
          "IsoVerif/Lemmas/GenBase.lean", "IsoVerif/Lemmas/GenCigar.lean", "IsoVerif/Props/C16Gen.lean"]
 TARGETS = ["IsoVerif.Props.C16", "IsoVerif.Props.C16PolyA", "IsoVerif.Props.C16Record", "IsoVerif.Props.C16Finder",
            "IsoVerif.Props.C16MoveRef", "IsoVerif.Props.C16FinderSpec", "IsoVerif.Props.C16TailRecord",
            "IsoVerif.Props.C16Concat", "IsoVerif.Props.C16FinderChar", "IsoVerif.Props.C16CutsN",
-           "IsoVerif.Props.C16TailExons", "IsoVerif.Props.C16Pad", "IsoVerif.Props.C16NoExon", "IsoVerif.Props.C16FinderMirror", "IsoVerif.Lemmas.GenBase", "IsoVerif.Lemmas.GenCigar", "IsoVerif.Props.C16Gen"]
+           "IsoVerif.Props.C16TailExons", "IsoVerif.Props.C16Pad", "IsoVerif.Props.C16NoExon", "IsoVerif.Props.C16FinderMirror", "IsoVerif.Props.C16FinderFix", "IsoVerif.Lemmas.GenBase", "IsoVerif.Lemmas.GenCigar", "IsoVerif.Props.C16Gen"]
 GEN_DEPS = ["Enums", "CigarClasses", "Prims", "LoopsRt", "LoopsCigar", "LoopsCigarOps"]
 LEVEL = "proof"
 RULE = ("exhaustive CIGARs (all 9 operation kinds: <=3 ops x lengths {1,2,3}, 4 ops x {1,2}; 5 ops over 7 kinds and 6 ops "
@@ -63,6 +63,10 @@ ASSUMPTIONS = ["CPython int semantics = Lean Int", "CIGAR operation lengths are 
                "add_polya_info (external position cut down to the internal one) and the REPAIRED find_polyt_head window "
                "(patches /tmp/b-c16x/fix_*.patch): VIOLATION on a tree without them",
                "mirror_region / mirror_law_win: from_pos, to_pos >= 0, CIGAR lengths >= 0, reverse complement maps exactly T/t to A/a (hrc)",
+               "Props/C16FinderFix.lean (…_fix_char, …_fix_eq_spec, ranges, record_…_fix): CIGAR operation lengths >= 0 (records: "
+               "lengths >= 1, reference_start >= 0); the model is /repo HEAD with both finder repairs (P inside the walked tail, head "
+               "window); mirror_law_general / mirror_law_offset(_first) / mirror_law_whole: from_pos, to_pos >= 0, lengths >= 0, hrc, the "
+               "tail starts d >= 1 bases inside the aligned part; the closed forms name the alignment columns around the tail start",
                "min_polya_fraction is compared as the exact rational num/den; the harness uses dyadic fractions "
                "(1/4, 1/2, 3/4, 1) for which the float comparison of the code is exact"]
 
@@ -613,6 +617,161 @@ def mirror_law_check(ctx):
             ctx.traces_validated += 1
 
 
+# ---- the general position law read <-> mirror image on the REAL finder (Props/C16FinderFix.lean mirror_law_general) ----
+MIRROR_WITNESS = [   # (cigar, seq, offset from the mirror image L + 1 - polyA) — theorem mirror_offset_witness
+    ([[0, 9], [4, 4]], "CCCCCCAAAAAAA", -2),
+    ([[0, 6], [2, 2], [0, 3], [4, 4]], "CCCCCCAAAAAAA", -4),
+    ([[0, 6], [1, 2], [0, 3], [4, 4]], "CCCCCCCCAAAAAAA", -1),
+]
+
+
+def _tail_start(flags, w, num, den, chk):
+    """the relation TailStart of Lemmas/FinderChar.lean, by brute force (independent of the model and of the code):
+    least window [i, i+w) ending strictly before the end with >= w*num//den A's, advanced to the least 'AA' at or after
+    i; with chk the rest from there holds the fraction num/den of A's"""
+    c = w * num // den
+    n = len(flags)
+    for i in range(n):
+        if i + w < n and sum(flags[i:i + w]) >= c:
+            p = i
+            for k in range(i, n - 1):
+                if flags[k] and flags[k + 1]:
+                    p = k
+                    break
+            if chk and (n - p) * num > sum(flags[p:]) * den:
+                return None
+            return p
+    return None
+
+
+def _cols_back(cig):
+    """alignment columns (consumes query, consumes reference) walked back from the 3' end: trailing clips skipped
+    (SAM-valid layouts only), up to the next clip"""
+    ops = list(reversed(cig))
+    while ops and ops[0][0] in (G.S, G.H):
+        ops.pop(0)
+    cols = []
+    for op, ln in ops:
+        if op in (G.S, G.H):
+            break
+        cols += [(op in (G.M, G.I, G.EQ, G.X), op in (G.M, G.D, G.N, G.EQ, G.X))] * ln
+    return cols
+
+
+def _project(cols, qn):
+    """ProjectsTo: reference columns at or before query column number qn, minus one (all of them when there is none)"""
+    cnt, qi = 0, 0
+    for q, r in cols:
+        if q:
+            if qi == qn:
+                return cnt + (1 if r else 0) - 1
+            qi += 1
+        cnt += 1 if r else 0
+    return cnt - 1
+
+
+def deep_tail_read(rng):
+    """a read whose A tail starts around an indel / skip / padding close to the 3' end of the alignment:
+    body, event, `y` aligned bases (0: the alignment ends on the event), optional soft clip [+ hard clip]; tail =
+    everything from `boundary + delta` on (sometimes the whole read)"""
+    cig, seq = [], ""
+    if rng.random() < 0.3:
+        n = rng.randint(30, 80)
+        cig += [[G.M, n], [G.N, rng.randint(50, 300)]]
+        seq += "".join(rng.choice("CGT") for _ in range(n))
+    x = rng.randint(20, 90)
+    cig.append([rng.choice([G.M, G.M, G.EQ, G.X]), x])
+    seq += "".join(rng.choice("CGT") for _ in range(x))
+    ev = rng.choice([None, G.D, G.D, G.N, G.I, G.I, G.P, "DI", "ID"])
+    g = rng.randint(1, 4)
+    if ev == "DI":
+        cig += [[G.D, g], [G.I, rng.randint(1, 3)]]
+    elif ev == "ID":
+        cig += [[G.I, rng.randint(1, 3)], [G.D, g]]
+    elif ev is not None:
+        cig.append([ev, g])
+    seq += "".join(rng.choice("CGT") for _ in range(sum(l for k, l in cig[-2:] if k == G.I)))
+    boundary = len(seq)
+    y = rng.choice([0, rng.randint(1, 12), rng.randint(1, 12), rng.randint(1, 12)])   # 0: the alignment ends on the event
+    if y:
+        cig.append([rng.choice([G.M, G.M, G.EQ]), y])
+        seq += "C" * y
+    k = rng.choice([0, 0, rng.randint(1, 30)])
+    if k:
+        cig.append([G.S, k])
+        seq += "C" * k
+        if rng.random() < 0.2:
+            cig.append([G.H, rng.randint(1, 9)])
+    q = max(1, min(len(seq) - 2, boundary + rng.randint(-4, 3)))
+    if rng.random() < 0.05:
+        q = 0          # the whole read is tail (mirror_law_whole)
+    seq = seq[:q] + "A" * (len(seq) - q)
+    if rng.random() < 0.3 and len(seq) - q > 8:
+        j = rng.randint(q + 4, len(seq) - 1)
+        seq = seq[:j] + "C" + seq[j + 1:]
+    return seq, cig
+
+
+def mirror_general_check(ctx):
+    """mirror_law_general / mirror_law_offset / mirror_offset_witness evaluated on the real finder: for a tail that starts
+    `d >= 1` bases inside the aligned part, find_polya_tail(read) = reference_end - k_A and
+    find_polyt_head(mirror image) = max(1, L - find_polya_tail(read) - (k_A - k_T)); k_A, k_T computed here from the CIGAR
+    columns (independent walk), the scan position by the brute-force relation"""
+    C, AI, PF, PV = _impl()
+    rng = ctx.rng
+    L = 10 ** 6
+    f4 = PF.PolyAFinder(4, 0.75)
+    for cig, seq, off in MIRROR_WITNESS:
+        a = make_segment(100, cig, seq)
+        m = make_segment(1000 - a.reference_end, cig[::-1], G.revcomp(seq))
+        pa, pt = f4.find_polya_tail(a, 16, 2, True), f4.find_polyt_head(m, 16, 2, True)
+        ctx.evaluations += 1
+        ctx.count("op:mirror_witness")
+        if pa == -1 or pt != 1001 - pa + off:
+            ctx.disagree("mirror_offset_witness", {"cigar": cig, "seq": seq, "offset": off}, [pa, 1001 - pa + off], [pa, pt])
+        else:
+            ctx.traces_validated += 1
+    deep = 0
+    for _ in range(600 if ctx.tier == "quick" else 6000):
+        seq, cig = deep_tail_read(rng)
+        w = rng.choice([4, 8, 16])
+        num, den = 3, 4
+        frm, to, chk = rng.choice([(4 * w, 2, True), (4 * w, 2, False), (rng.randint(2, 40), rng.randint(0, 20), rng.random() < 0.5)])
+        fd = PF.PolyAFinder(w, num / den)
+        s = rng.randint(100, 5000)
+        a = make_segment(s, cig, seq)
+        m = make_segment(L - a.reference_end, cig[::-1], G.revcomp(seq))
+        pa, pt = fd.find_polya_tail(a, frm, to, chk), fd.find_polyt_head(m, frm, to, chk)
+        ctx.evaluations += 1
+        clip = sum(l for k_, l in cig if k_ == G.S)
+        mapped_end = len(seq) - clip
+        start = max(0, mapped_end - frm)
+        stop = min(len(seq), mapped_end + to + 1)
+        p = _tail_start([c == "A" for c in seq[start:stop]], w, num, den, chk)
+        inp = {"s": s, "cigar": cig, "seq": seq, "L": L, "w": w, "from": frm, "to": to, "chk": chk}
+        if p is None:
+            ctx.count("op:mirror_general:none")
+            if (pa, pt) != (-1, -1):
+                ctx.disagree("mirror_general", inp, [-1, -1], [pa, pt])
+            continue
+        d = mapped_end - (start + p)
+        if d < 1:
+            ctx.count("op:mirror_general:clip")
+            exp = [a.reference_end - d, max(1, L - 1 - (a.reference_end - d))]
+        else:
+            cols = _cols_back(cig)
+            ka = _project(cols, d)
+            kt = 0 if d == 1 else _project(cols, d - 1)
+            exp = [a.reference_end - ka, max(1, L - (a.reference_end - ka) - (ka - kt))]
+            ctx.count("op:mirror_general:offset%d" % (-1 - (ka - kt)))
+            deep += 1
+        if [pa, pt] != exp:
+            ctx.disagree("mirror_general", inp, exp, [pa, pt])
+        else:
+            ctx.traces_validated += 1
+    ctx.extra["mirror_general_inside_aligned_part"] = deep
+
+
 def nontrivial(op, kw, mo):
     if vlib.is_err(mo):
         return False
@@ -717,6 +876,7 @@ def correspondence(ctx):
     gen_selfcheck(ctx)
     state = {"pysam_ok": 0, "first": None}
     mirror_law_check(ctx)
+    mirror_general_check(ctx)
     stream = itertools.chain(gen_cases(ctx), finder_cases(ctx), finder_unit_cases(ctx), move_ref_cases(ctx),
                              tail_finder_cases(ctx), boundary_cases(ctx))
     while True:
